@@ -41,7 +41,14 @@ ECtx(k, ch) ==
     [] k = 10 -> And_(g, And_(H_(G_(e, "rec"), "inner"), Lt10(G_(G_(e, "rec"), "inner"))))
     [] k = 11 -> And_(g, Or_(B_("in", e, <<"lit", TG>>), B_("in", e, <<"lit", TG2>>)))   \* two membership tests on one path
     [] k = 12 -> And_(g, And_(Not_(B_("in", e, <<"lit", TG>>)), B_("in", e, <<"lit", TG2>>)))
+\* an action literal other than the request's action is an entity like any other: dereferencing it (`in`) needs it in the slice
+ActLitPols ==
+  {<<WithId(WhenP(s, e), "p1", eff)>> : s \in {1, 5}, eff \in {"permit"},
+     e \in {B_("in", <<"lit", TEdit>>, <<"lit", TAll>>), Not_(B_("in", <<"lit", TEdit>>, <<"lit", TAll>>)),
+            And_(B_("in", <<"lit", TEdit>>, <<"set", <<<<"lit", TAll>>, <<"lit", TView>>>>>>), Lt10(G_(Pv, "n"))),
+            B_("in", <<"lit", TView>>, <<"lit", TAll>>), Or_(B_("in", <<"lit", TAll>>, <<"lit", TEdit>>), B_("in", Av, <<"lit", TAll>>))}}
 LevelPols ==
+  ActLitPols \cup
   {<<WithId(WhenP(2, Ctx(k, Chains[i])), "p1", "permit")>> : k \in 1..6, i \in 1..Len(Chains)}
   \cup {<<WithId(WhenP(2, ECtx(k, EChains[i])), "p1", "permit")>> : k \in 1..12, i \in 1..Len(EChains)}
   \cup {<<WithId(WhenP(2, ECtx(1, EChains[i])), "p1", "permit"),
